@@ -38,6 +38,14 @@ inductive SyncSite
   | unknown
 deriving DecidableEq, Repr
 
+/-- one SQL statement the start-up path (`initDB` and what it calls synchronously) executes -/
+inductive InitStmt
+  | createIfNotExists (t : Table)  -- "create table if not exists …": never touches an existing table
+  | additive                       -- create index if not exists / alter table add column: no row is lost
+  | destructive                    -- drop / delete / update / insert / replace
+  | unknown
+deriving DecidableEq, Repr
+
 /-- how a function that writes profile data to the primary treats `fromCache` -/
 inductive GuardClass
   | guarded     -- the write is unreachable when the preceding LoadUserProfile answered from the cache
